@@ -216,11 +216,9 @@ def run(prop, tier, seed):
 
 
 def check(prop, tier, seed):
-    out = run(prop, tier, seed)
     # joins over single storages inside the world / store traces are charged to C06 / C07 as well
     from . import store
+    thunks = [lambda: run(prop, tier, seed), lambda: store.run_suite("kind_churn", tier, seed)]
     if prop == "C06":
-        out += [store.run_suite("kind_churn", tier, seed), store.run_suite("world:mc_store", tier, seed)]
-    else:
-        out += [store.run_suite("kind_churn", tier, seed)]
-    return out
+        thunks.append(lambda: store.run_suite("world:mc_store", tier, seed))
+    return C.run_until_violation(prop, thunks)
